@@ -27,8 +27,9 @@ import time
 from typing import Any, Dict, List, Optional, Tuple
 
 
-class OpTimeout(Exception):
-    pass
+class OpTimeout(BaseException):
+    """Not an Exception on purpose: neither the library's best-effort `except Exception` blocks nor the harness's own
+    may swallow it (the timer is one-shot; a swallowed timeout would leave the rest of the operation unbounded)."""
 
 
 @contextlib.contextmanager
